@@ -2,7 +2,7 @@
    Only statements here; proofs live in coq/proofs/ConnLimitsP.v and ConnLimitsRefuted.v. *)
 From AQ Require Import lib.Base model.RangeSet model.StreamRecv model.ConnLimits model.ConnLimitsSpec
   gen.C07Consts proofs.RangeSetP proofs.ConnLimitsP proofs.ConnLimitsAdv proofs.ConnLimitsUsed proofs.ConnLimitsSim
-  proofs.ConnLimitsDeliv.
+  proofs.ConnLimitsDeliv proofs.ConnLimitsMsd.
 
 (* over_limit_closes, part 1: in EVERY state, a STREAM / RESET_STREAM / MAX_STREAM_DATA / STREAM_DATA_BLOCKED
    frame that would create a peer-initiated stream beyond the current MAX_STREAMS value is answered with
@@ -109,17 +109,27 @@ Theorem used_is_sum_of_highest : forall cl msd md cb ops os c,
 Proof. exact used_exact. Qed.
 Print Assumptions used_is_sum_of_highest.
 
-(* within_limit_never_accused_partial: for EVERY op sequence, a peer whose frames stay within the connection-level
-   limit and the stream-count limits AS ADVERTISED ON THE WIRE (transport parameters, then the MAX_DATA / MAX_STREAMS
-   frames actually written, model/ConnLimitsSpec.v), within the endpoint's current per-stream limit, and that is
-   final-size consistent, is never answered with FLOW_CONTROL_ERROR, STREAM_LIMIT_ERROR or FINAL_SIZE_ERROR.
-   Partial: the per-stream limit is max_stream_data_local itself (accused false ...), not the last
-   MAX_STREAM_DATA seen on the wire; missing is the per-stream analogue of advertised_is_enforced. *)
-Theorem within_limit_never_accused_partial : forall cl msd md cb ops,
+(* within_limit_never_accused (FULL strength): for EVERY op sequence (peer frames, write passes, lost MAX_* frames, local
+   opens, ...), a peer whose frames stay within EVERY limit AS ADVERTISED ON THE WIRE so far -- connection: initial_max_data,
+   then MAX_DATA frames; per stream: initial_max_stream_data_*, then the MAX_STREAM_DATA frames written for that stream;
+   stream count: initial_max_streams_*, then MAX_STREAMS frames (the ledger of model/ConnLimitsSpec.v, `accused true`) --
+   and that is final-size consistent, is never answered with FLOW_CONTROL_ERROR, STREAM_LIMIT_ERROR or FINAL_SIZE_ERROR.
+   Proof: simulation Sim (ConnLimitsSim.v) + invariant MSim (ConnLimitsMsd.v): p_adv_msd(sid) <= max_stream_data_local(sid)
+   for every receivable stream whose state was not discarded (a frame for any other stream is answered with
+   STREAM_STATE_ERROR or ignored).  Non-vacuity: never_accused_full_nonvacuous. *)
+Theorem within_limit_never_accused : forall cl msd md cb ops,
+  0 <= msd -> 0 <= md -> 0 <= cb ->
+  accused true (conn_init cl msd md cb) (peer_init msd md) ops = false.
+Proof. exact never_accused_full. Qed.
+Print Assumptions within_limit_never_accused.
+
+(* the complement: the same for a peer that stays within the per-stream limit the endpoint currently ENFORCES
+   (max_stream_data_local, `accused false`), which is never below the wire value (MSim) *)
+Theorem within_enforced_limit_never_accused : forall cl msd md cb ops,
   0 <= msd -> 0 <= md -> 0 <= cb ->
   accused false (conn_init cl msd md cb) (peer_init msd md) ops = false.
 Proof. exact never_accused_partial. Qed.
-Print Assumptions within_limit_never_accused_partial.
+Print Assumptions within_enforced_limit_never_accused.
 
 (* the receiver bound used above, for every frame in every receiver state satisfying RB *)
 Theorem receiver_buffer_step : forall st off data fin, RB st ->
@@ -143,7 +153,7 @@ Proof. exact advertised_is_enforced. Qed.
 Print Assumptions advertised_is_enforced.
 
 
-(* Delivery outcomes of the packets that advertised limits.  within_limit_never_accused_partial and advertised_is_enforced
+(* Delivery outcomes of the packets that advertised limits.  within_limit_never_accused and advertised_is_enforced
    above already quantify over op sequences that contain LimitLost / StreamLimitLost at ANY position (a MAX_DATA /
    MAX_STREAMS / MAX_STREAM_DATA frame declared lost, with peer frames before the re-advertisement): the limit in force
    for a check is the largest value ever written to the wire, whatever happened to the packet.  The two statements
